@@ -26,3 +26,17 @@ PROPS['C17'] = {
         dict(name='ciq_conc_T3_K2', kernel='C17_index_queue.cpp', prefix='conc_', mode='res', lower_defs=['-DNTHREADS=3'], R=3, BMAX=10, unwind=4, tiers=('thorough',), timeout=3000),
     ],
 }
+
+PROPS['C06'] = {
+    'assumptions': [
+        'Real mutex.cpp, detail/condition_variable.cpp, spinlock.hpp, agent_ref.cpp, error_code.cpp; agent = stub implementation of the public agent_base interface '
+        '(suspend blocks until a resume token is deposited; yield/yield_k = one polling step; sleep_until returns when resumed or, nondeterministically, on deadline).',
+        'Task identity = one distinct non-null thread id per harness thread (migration between workers is invisible at this layer).',
+        'Error back end (throw_exception/throws_if) stubbed: error code recorded, verif_pika_error thrown in throws mode, no message formatting.',
+    ],
+    'queries': [
+        dict(name='mutex_T2_S2', kernel='C06_mutex.cpp', prefix='mx_', mode='res', lower_defs=['-DNTHREADS=2'], shim='shim_sync', inline=20000, R=3, BMAX=60, unwind=3, covers=[0], timeout=1500),
+        dict(name='mutex_misuse', kernel='C06_mutex.cpp', prefix='misuse_', mode='seq', lower_defs=['-DNTHREADS=2'], shim='shim_sync', inline=20000, unwind=6),
+        dict(name='mutex_T3_S1', kernel='C06_mutex.cpp', prefix='mx_', mode='res', lower_defs=['-DNTHREADS=3', '-DNSEC=1'], shim='shim_sync', inline=20000, R=3, BMAX=60, unwind=3, tiers=('thorough',), timeout=6000),
+    ],
+}
